@@ -49,7 +49,10 @@ ALPHABET = list('abcxyzABC0123456789.:/?#@[]%\\ +&=-_~;,!$\'()*<>"`{}|^') + [
     '[]', '[:', ':]', ':0', ':65535', ':65536', ':-1', ':99999999999999999999', ':٣', ':8_0', ': 80',
     ':+80', ':0x50', '@@', '@:', ':@', 'xn--', 'xn--a', 'xn--\x80', 'http:', 'https:', 'ftp:', 'mailto:',
     'javascript:', 'data:', 'file:', 'HTTP:', 'localhost', 'localhost:', '0x', '0x7f', '08', '4294967296',
-    '-1', '1e3', '1_0']
+    '-1', '1e3', '1_0',
+    # path parameters and other scheme-specific syntax (RFC 1738 ;type= of FTP URLs, gopher item types, ws queries)
+    ';type=a', ';type=i', ';type=d', ';type=', ';type=x', ';type=binary', ';type=%61', ';type=a/b', ';TYPE=A', ';type', ';', ';;', ';a=b;c',
+    '/f;type=', '/dir/;type=d', '%3Btype=a', ';type=a?x', ';type=a#y', '/0', '/1/x', '/9', '/h', '\t70', '%09', '/%2F', '/%2f%2E%2e']
 PREFIXES = ['', '', 'http://', 'http://', 'https://', 'ftp://', 'HTTP://', 'http:', 'http:/', 'http:///',
             '//', '/', 'ws://', 'wss://', 'gopher://', 'mailto:', 'javascript:', 'x:', ':', '?', '#',
             'http://[', 'http://user:pass@', 'http://@', 'http://:@', 'ftp://a:b@[', 'localhost:', 'a.b:']
